@@ -221,8 +221,8 @@ def replay(case, ctx):
 
 
 def plan(tier, seed):
-    n, per = (10, 300) if tier == "quick" else (14, 20000)
-    ni, peri = (4, 250) if tier == "quick" else (8, 10000)
+    n, per = (11, 1500) if tier == "quick" else (14, 20000)
+    ni, peri = (4, 1500) if tier == "quick" else (8, 10000)
     return (
         [{"kind": "table", "n": 2000 if tier == "quick" else 200000}]
         + [{"kind": "stream", "n": per} for _ in range(n)]
